@@ -19,7 +19,7 @@ pub fn run(args: &Args) {
         // the first 8 configurations sweep the rates beeper-only (every 4th with AY), the next 8 sweep them with AY
         let rate = if ci < 16 { rates[(ci % 8) as usize] } else if r.chance(1, 2) { *r.pick(&rates) } else { 8000 + r.below(376_000) as usize };
         let volume = *r.pick(&[100u8, 100, 50, 200, 1]);
-        let ay = ci % 4 == 3 || (8..16).contains(&ci);
+        let ay = (ci % 4 == 3 && ci != 7) || (8..16).contains(&ci); // (7: the highest rate with the beeper alone)
         let drain = match ci % 6 { 4 => "sometimes", 5 => "never", _ => "always" };
         // a host may start muted and switch the sound on later; a machine may be configured without the beeper device
         // (then the program's speaker/MIC writes are not heard: with the AY off as well the samples are all zero)
@@ -35,7 +35,14 @@ pub fn run(args: &Args) {
         if muted_start {
             emu.set_sound(true);
         }
-        poke_bytes(&mut emu, CODE, &[0xED, 0x79, 0x18, 0xFE]);
+        // the idle loop between the writes: JR $, or - odd configurations - a loop of long instructions (RLC (IX+0), 23 T),
+        // so that the instruction that crosses the frame end reaches well into the next frame
+        if ci % 2 == 1 {
+            poke_bytes(&mut emu, CODE, &[0xED, 0x79, 0xDD, 0xCB, 0x00, 0x06, 0x18, 0xFA]);
+            emu.verif_cpu().regs.set_ix(0x9000);
+        } else {
+            poke_bytes(&mut emu, CODE, &[0xED, 0x79, 0x18, 0xFE]);
+        }
         {
             let c = emu.verif_cpu();
             c.regs.set_sp(0xBFF0);
@@ -80,12 +87,16 @@ pub fn run(args: &Args) {
             if !ay && r.chance(1, 6) {
                 use crate::files::*;
                 let mut banks: Vec<Vec<u8>> = (0..8).map(|_| vec![0u8; 16384]).collect();
-                banks[2][..4].copy_from_slice(&[0xED, 0x79, 0x18, 0xFE]);
+                if ci % 2 == 1 {
+                    banks[2][..8].copy_from_slice(&[0xED, 0x79, 0xDD, 0xCB, 0x00, 0x06, 0x18, 0xFA]);
+                } else {
+                    banks[2][..4].copy_from_slice(&[0xED, 0x79, 0x18, 0xFE]);
+                }
                 let border = r.below(8) as u8;
                 let fe = border | (r.u8() & 0xF8);
                 let d = MachineDesc {
                     m128,
-                    cpu: CpuDesc { af: 0, bc: 0, de: 0, hl: 0, af_: 0, bc_: 0, de_: 0, hl_: 0, ix: 0, iy: 0,
+                    cpu: CpuDesc { af: 0, bc: 0, de: 0, hl: 0, af_: 0, bc_: 0, de_: 0, hl_: 0, ix: 0x9000, iy: 0,
                                    sp: 0xBFF0, pc: CODE + 2, i: 0, r: 0, iff1: false, iff2: false, im: 1 },
                     border,
                     latch: 0,
